@@ -310,11 +310,20 @@ Inductive gen_result :=
 | GErr (st : stage) (ds : list diag)
 | GOk (lines : list string) (imports : list string).
 
+Definition arg_index (pm : pmap entry) (out : nat) : nat :=
+  match look pm out with
+  | Some e => match e_what e with WhArg i => i | _ => 0 end
+  | None => 0
+  end.
+
 Definition generate1 (E : env) (tyorder : list nat) (root : rset) (inj : injector) (vs : list valinfo) : gen_result :=
   match analyze tyorder root (map snd (i_params inj)) (i_out inj) (i_cleanup inj) (i_err inj) with
   | RErr st ds => GErr st ds
   | ROk pm cs =>
-    let '(lines, g) := inject E inj vs cs (mkG [] []) in
+    (* injectPass with no calls: set.For(out).Arg().Index -- read from the provider map, bindings included *)
+    let inj' := mkInj (i_name inj) (i_params inj) (i_variadic inj) (i_out inj) (i_cleanup inj) (i_err inj)
+                      (arg_index pm (i_out inj)) in
+    let '(lines, g) := inject E inj' vs cs (mkG [] []) in
     GOk lines (import_lines g)
   end.
 
@@ -331,10 +340,25 @@ Definition gen_agrees (r : gen_result) (o : gen_observed) : bool :=
 
 Record gcase := mkGCase {
   gk_id : nat; gk_env : env; gk_order : list nat; gk_root : rset; gk_inj : injector;
-  gk_vals : list valinfo; gk_obs : gen_observed }.
+  gk_vals : list valinfo;
+  gk_anon : list nat;        (* ids of anonymous inline sets: Wire's "unused provider set" message has no name for them *)
+  gk_obs : gen_observed }.
+
+(* projection onto what the message can tell: an unused anonymous set is reported without a name *)
+Definition anon_diag (anon : list nat) (d : diag) : diag :=
+  match d with
+  | DUnusedSet i => if existsb (Nat.eqb i) anon then DUnusedSet 0 else d
+  | _ => d
+  end.
+
+Definition project_anon (anon : list nat) (r : gen_result) : gen_result :=
+  match r with
+  | GErr st ds => GErr st (map (anon_diag anon) ds)
+  | _ => r
+  end.
 
 Definition run_gcase (k : gcase) : gen_result :=
   generate1 (gk_env k) (gk_order k) (gk_root k) (gk_inj k) (gk_vals k).
 
 Definition gmismatches (ks : list gcase) : list nat :=
-  map gk_id (filter (fun k => negb (gen_agrees (run_gcase k) (gk_obs k))) ks).
+  map gk_id (filter (fun k => negb (gen_agrees (project_anon (gk_anon k) (run_gcase k)) (gk_obs k))) ks).
